@@ -31,6 +31,11 @@ def run_worker(spec, hashseed):
 
 
 def gen_spec(rng, kind):
+    if kind in ('conflict', 'nansib'):
+        names = [rng.choice(['alpha', 'beta', 'gam', 'delta']) + str(i) for i in range(2)]
+        cn = rng.sample(['solver', 'thermo', 'plume', 'cathode', 'grid', 'aero', 'wing', 'c1', 'zz'], 4)
+        return {'kind': kind, 'exo': names, 'comp_names': cn, 'w': [round(rng.uniform(0.3, 0.9), 3) for _ in range(2)],
+                'nan_pos': rng.randrange(3), 'np_seed': rng.randrange(10 ** 6), 'steps': rng.randint(5, 8)}
     if kind in ('twin', 'zero'):
         names = [rng.choice(['alpha', 'beta', 'gam', 'delta']) + str(i) for i in range(2)]
         cn = rng.sample(['solver', 'thermo', 'plume', 'cathode', 'grid', 'aero', 'wing', 'c1', 'zz'], rng.randint(3, 4))
@@ -46,13 +51,14 @@ def run(ctx: core.Ctx, only=None) -> core.Result:
     res = core.Result()
     res.rule = ('identical training scripts run in subprocesses under PYTHONHASHSEED 0..N and "random": systems with 4-6 '
                 'exogenous inputs (feed-forward), with a two-variable feedback loop, and with 3-4 components whose candidates have '
-                'exactly equal (twin models) or undefined (identically-zero surrogate) error indicators; compared: order of System.inputs() and '
+                'exactly equal (twin models) or undefined (identically-zero surrogate) error indicators, with one variable name '
+                'declared differently by several components, and with a NaN-producing sibling branch; compared: order of System.inputs() and '
                 'coupling_variables(), digest of the drawn samples, of the training history and of predictions. A case is '
                 'non-trivial when >= 4 hash seeds were compared; distinct by system spec.')
     nseeds = ctx.scale(6, 40)
     specs = [o.get('input', o).get('spec', o.get('input', o)) for o in only] if only is not None else \
         [c.get('spec', c) for c in core.corpus_cases('C20')] + \
-        [gen_spec(ctx.rng, k) for k in (['ff', 'loop', 'twin', 'zero'] * ctx.scale(1, 3))]
+        [gen_spec(ctx.rng, k) for k in (['ff', 'loop', 'twin', 'zero', 'conflict', 'nansib'] * ctx.scale(1, 3))]
     seeds = list(range(nseeds)) + ['random']
     for spec in specs:
         with ThreadPoolExecutor(max_workers=14) as ex:
